@@ -198,7 +198,7 @@ def nullable(e: Expr, rules: dict[str, Rule], seen=()) -> bool:
     if k in ("soi", "eoi", "and", "not", "opt", "star", "peekall", "popall", "drop"):
         return True
     if k in ("peek", "pop"):
-        return False  # family pushes are never empty
+        return bool(rules.get("__emptypush__"))  # an empty entry makes PEEK / POP match nothing
     if k == "peekslice":
         return True
     if k == "ref":
@@ -228,6 +228,9 @@ def nullable(e: Expr, rules: dict[str, Rule], seen=()) -> bool:
 def well_formed(rules_list: list[Rule]) -> bool:
     """No left recursion, no repetition over nullable, no {0}/{,0}, refs defined."""
     rules = {r[0]: r for r in rules_list}
+    rules["__emptypush__"] = any(
+        (e[0] == "push" and nullable(e[1], rules)) or (e[0] == "pushlit" and e[1] == "") for _n, _m, body in rules_list for e in walk(body)
+    )
     builtin_names = set(ASCII_SETS) | {"NEWLINE", "LETTER", "ANY", "SOI", "EOI"}
     for _name, _mod, body in rules_list:
         for e in walk(body):
@@ -244,8 +247,6 @@ def well_formed(rules_list: list[Rule]) -> bool:
             if k == "ref" and e[1] not in rules and e[1] not in builtin_names:
                 return False
             if k == "raw" and any(n not in rules for n in e[3]):
-                return False
-            if k == "push" and nullable(e[1], rules):
                 return False
 
     # left recursion: rule reachable from itself through leftmost positions
@@ -270,7 +271,7 @@ def well_formed(rules_list: list[Rule]) -> bool:
         acc: set[str] = set()
         firsts(body, acc)
         edges[name] = acc & set(rules)
-    for start in rules:
+    for start in edges:
         stack, seen = list(edges[start]), set()
         while stack:
             x = stack.pop()
@@ -400,6 +401,10 @@ KINDS: dict[str, tuple[Expr, bool]] = {
     "tagstar": (("raw", "#tg = (x ~ \"b\"?)*", True, ("x",), ("tag", "star")), False),
     "tagref": (("tag", "tg", ("ref", "x")), False),
     "taggrp": (("tag", "tg", ("seq", ("ref", "x"), B)), False),
+    "soieoi": (("seq", ("soi",), ("eoi",)), False),
+    "pushemptypeek": (("seq", ("push", ("opt", A)), ("peek",), B), False),
+    "pushemptypop": (("seq", ("push", ("star", A)), B, ("pop",)), False),
+    "pushlitempty": (("seq", ("pushlit", ""), ("not", ("not", ("peek",))), ("peekall",), ("pop",)), False),
     "push": (("push", ("choice", A, B)), False),
     "pushx": (("push", ("ref", "x")), False),
     "pushlit": (("pushlit", "a"), False),
